@@ -67,6 +67,10 @@ def cases(chk):
         yield "roundtrip", {"tree": to_json(("n", [("k%d" % i, "v") for i in range(na)], b"tail", []))}
     if not chk.quick():   # ~45 s: the real decoder's data.pop(0) is quadratic in the frame size
         yield "roundtrip", {"tree": to_json(("list", [], None, [("i", [], None, [])] * 65535))}
+    # 8 MiB and more: bit 23 of a length
+    for n in ((0x800000, 0xC00007) if chk.quick() else (0x7FFFFF, 0x800000, 0x800001, 0xC00007, 0xFFFF00)):
+        for where in ("content", "attr", "nested"):
+            yield "giant", {"size": n, "where": where}
     yield "listlimit", {"kids": 65536}
     yield "listlimit", {"kids": 65537}
     yield "listlimit", {"attrs": 32768}
@@ -223,8 +227,45 @@ def classify(t):
     return hits
 
 
+def run_giant(chk, case):
+    """strings and contents of 8 MiB and more (up to the 16 MiB frame limit): the real encoder and decoder only (the frames are too large to be
+    shipped to the model driver as hex lines; the model's theorem has no size bound and its length arithmetic is compared on the smaller sizes)"""
+    from yowsup.structs import ProtocolTreeNode as N
+    n, where = case["size"], case["where"]
+    blob = bytes([0x41 + n % 23]) * n
+    if where == "content":
+        node = N("enc", {"type": "msg"}, None, blob)
+    elif where == "nested":
+        node = N("message", {"id": "g1"}, [N("enc", {"type": "msg"}, None, blob), N("after", {"k": "v"})])
+    else:
+        node = N("message", {"v": blob.decode("latin-1"), "after": "1"})
+    chk.hit("giant:%s:%dMiB" % (where, n >> 20))
+    del chk.bottom.sent[:]
+    try:
+        chk.coder.send(node)
+    except Exception as e:
+        _unlock(chk)
+        return [oracle("C01:giant:encode-raises", "%s of %d bytes: the encoder refuses it: %s: %s" % (where, n, type(e).__name__, str(e)[:80]))]
+    frame = bytes(chk.bottom.sent[0])
+    del chk.top.received[:]
+    try:
+        chk.coder.receive(frame)
+        back = chk.top.received[0]
+    except Exception as e:
+        return [oracle("C01:giant:decode-raises", "%s of %d bytes (frame of %d bytes): decoding the encoder's own output raises %s: %s" % (where, n, len(frame), type(e).__name__, str(e)[:80]))]
+
+    def shape(x):
+        return (x.tag, sorted((k, len(v), v[:4], v[-4:]) for k, v in x.attributes.items()), None if x.getData() is None else (len(x.getData()), bytes(x.getData()[:4]), bytes(x.getData()[-4:])),
+                [shape(c) for c in x.getAllChildren()])
+    if shape(back) != shape(node) or (where == "content" and bytes(back.getData()) != blob):
+        return [oracle("C01:giant:differs", "%s of %d bytes (%#x): encoded and decoded again it comes back as %s" % (where, n, n, str(shape(back))[:200]))]
+    return []
+
+
 def run_case(chk, stream, case):
     fails = []
+    if stream == "giant":
+        return run_giant(chk, case)
     if stream == "malformed":
         frame = bytes.fromhex(case["frame"])
         ik, iv = impl_decode(chk, frame)
